@@ -60,24 +60,29 @@ def loadPriceDb (st : Settings) (es : List (String × String)) : Outcome Setting
     | .undef => .undef
     | .ok (_, st1) => .ok st1
 
+/-- report commodity and price file: the registrations `Settings::try_from` makes on the half-built settings -/
+def registerCfg (st : Settings) (a : Option String × Option (List (String × String))) : Outcome Settings :=
+  match a.1 with
+  | none =>
+    (match a.2 with
+     | none => .ok st
+     | some _ => .err)                              -- price conversion without `report.commodity`
+  | some rc =>
+    match st.getOrCreateCommodity (some rc) with
+    | .err => .err
+    | .undef => .undef
+    | .ok (_, st1) =>
+      (match a.2 with
+       | none => .ok st1
+       | some es => loadPriceDb st1 es)
+
 /-- `Settings::try_from`, chart-related part -/
 def settingsTryFrom (c : ChartCfg) : Outcome Settings :=
   if c.strict = true ∧ c.equityTarget = true ∧
       c.equityAccount ∉ (Settings.ofConfig c.strict c.audit c.permitEmpty c.accounts c.commodities c.tags).accounts then .err
   else
-    match c.reportCommodity with
-    | none =>
-      (match c.priceDb with
-       | none => .ok (Settings.ofConfig c.strict c.audit c.permitEmpty c.accounts c.commodities c.tags)
-       | some _ => .err)                            -- price conversion without `report.commodity`
-    | some rc =>
-      match (Settings.ofConfig c.strict c.audit c.permitEmpty c.accounts c.commodities c.tags).getOrCreateCommodity (some rc) with
-      | .err => .err
-      | .undef => .undef
-      | .ok (_, st1) =>
-        (match c.priceDb with
-         | none => .ok st1
-         | some es => loadPriceDb st1 es)
+    registerCfg (Settings.ofConfig c.strict c.audit c.permitEmpty c.accounts c.commodities c.tags)
+      (c.reportCommodity, c.priceDb)
 
 /-- settings construction followed by `parse_txns` -/
 def acceptWithCfg (c : ChartCfg) (rs : List RawTxn) : Outcome (List Txn × Settings) :=
